@@ -164,7 +164,7 @@ def shards(tier: str) -> list[dict[str, Any]]:
     if tier == "quick":
         return [{"what": "gen", "n": 110} for _ in range(11)] + [{"what": "sweep", "seeds": [s]} for s in (1, 2, 3, 4)] + \
             [{"what": "switches", "seed": 5}] + [{"what": "handlers", "seeds": list(range(i, 24, 2))} for i in range(2)]
-    return [{"what": "handlers", "seeds": list(range(i, 600, 4))} for i in range(4)] + [{"what": "gen", "n": 2500} for _ in range(12)] + [{"what": "sweep", "seeds": [s, s + 100]} for s in range(1, 9)] + \
+    return [{"what": "handlers", "seeds": list(range(i, 600, 4))} for i in range(4)] + [{"what": "gen", "n": 12000} for _ in range(12)] + [{"what": "sweep", "seeds": [s, s + 100, s + 200]} for s in range(1, 13)] + \
         [{"what": "switches", "seed": 5}]
 
 
